@@ -101,7 +101,7 @@ impl LangGen {
     /// an Int expression that fails at run time
     fn failing_int(&mut self, cx: &[Var]) -> String {
         self.failing = true;
-        let k = self.rng.below(14);
+        let k = self.rng.below(18);
         self.tag("inject-failure");
         match k {
             0 => "(car '())".into(),
@@ -130,6 +130,11 @@ impl LangGen {
             10 => "(symbol->string 5)".into(),
             11 => "(undefined-procedure-zz 1 2)".into(),
             12 => "(apply + 1 2)".into(),
+            // more arguments than parameters: directly, through apply, through a tail call, through map
+            13 => "((lambda (x) x) 1 2)".into(),
+            14 => "(apply (lambda (x y) x) '(1 2 3))".into(),
+            15 => "(let ((f (lambda (a) a))) (if #t (f 1 2) 0))".into(),
+            16 => "(car (map (lambda (x) x) '(1) '(2)))".into(),
             _ => "(error \"msg\")".into(),
         }
     }
@@ -479,7 +484,7 @@ impl LangGen {
 
     fn int_expr(&mut self, cx: &[Var], depth: usize) -> String {
         let d = depth - 1;
-        match self.rng.below(22) {
+        match self.rng.below(23) {
             0 | 1 => format!("(+ {} {})", self.expr(Ty::Int, cx, d), self.expr(Ty::Int, cx, d)),
             2 => format!("(- {} {})", self.expr(Ty::Int, cx, d), self.expr(Ty::Int, cx, d)),
             3 => format!("(* {} {})", self.expr(Ty::Int, cx, 0), self.rng.range(-2, 3)),
@@ -587,6 +592,18 @@ impl LangGen {
                     c = c,
                     calls = calls.join(" ")
                 )
+            }
+            21 => {
+                // a variable whose only reference is the unquoted tail of a dotted template, inside a procedure
+                // nested in the one that binds it
+                self.tag("qq-dotted-tail");
+                let t = self.fresh("t");
+                let init = self.expr(Ty::Int, cx, d);
+                match self.rng.below(3) {
+                    0 => format!("(let (({t} {init})) ((lambda () (cdr `(item . ,{t})))))", t = t, init = init),
+                    1 => format!("(let (({t} {init})) (let ((k (lambda () `(1 item . ,{t})))) (cdr (cdr (k)))))", t = t, init = init),
+                    _ => format!("(((lambda ({t}) (lambda (u) (cdr `(,u . ,{t})))) {init}) 0)", t = t, init = init),
+                }
             }
             _ => self.leaf(Ty::Int, cx),
         }
@@ -906,6 +923,16 @@ impl LangGen {
             forms.push("(define-syntax my-list (syntax-rules () ((_ x ...) (list x ...))))".to_string());
             forms.push("(define-syntax my-let1 (syntax-rules () ((_ (n v) body) ((lambda (n) body) v))))".to_string());
             forms.push("(define-syntax inc! (syntax-rules () ((_ v) (set! v (+ v 1))) ((_ v n) (set! v (+ v n)))))".to_string());
+        }
+        if self.rng.chance(1, 5) {
+            // non-tail recursion deep enough to make a fresh VM enlarge its control stack (256 slots, doubling), in a
+            // user procedure and in the prelude's map: the result must not depend on what the VM ran before
+            self.tag("deep-recursion");
+            let d = *self.rng.pick(&[50usize, 50, 64, 64, 100, 100, 128, 200, 400]);
+            forms.push("(define (zdeep-count n) (if (= n 0) 0 (+ 1 (zdeep-count (- n 1)))))".to_string());
+            forms.push(format!("(zdeep-count {})", d));
+            forms.push("(define (zdeep-build n) (if (= n 0) '() (cons n (zdeep-build (- n 1)))))".to_string());
+            forms.push(format!("(apply + (map (lambda (x) (* x 2)) (zdeep-build {})))", d * 2));
         }
         for i in 0..nforms {
             self.failing = false;
